@@ -16,6 +16,7 @@ RULE = ('sender on the virtual clock with the rate limiter on: (bitrate, window)
         'emitted completely, unchanged (== extracted Coq reference segmentation) and in order; with the limiter disabled (same budget '
         'parameters) nothing is ever held back. All runs replayed on the extracted model.'
         " (trickle) a long message paced by the peer's STmin under the budget for a good part of a window, then a queue that can burst: what was sent during the trickle still counts until it is a full window old."
+        ' (aborts) in 30 % of the queues the receiver answers some Flow Control requests with Overflow: the message is abandoned, the next queued one follows, and what the abandoned one put on the bus still counts against the window (the completeness clause is not applied to these runs).'
         ' (reconfigure) bitrate and / or window changed with params.set() + load_params() on a live layer: once the old history has left the window, bursts obey the new budget.')
 ASSUME = ['the model computes the budget in exact rationals; only (bitrate, window) pairs whose float operations are exact are generated (checked by the harness)']
 
@@ -65,6 +66,9 @@ def gen_case(rng, enabled=True):
         payloads.append(hx(pay))
         pr.send(0, hx(pay))
     bs = rng.choice([0, 0, 1, 3])
+    # aborts: the receiver answers some Flow Control requests with Overflow - the message is abandoned, the next queued one follows;
+    # what the abandoned message put on the bus still counts against the window
+    aborts = enabled and not trickle and len(payloads) >= 2 and rng.random() < 0.3
     steps = [SLOT // 7, SLOT - 1, SLOT + 1, W // 3, W - SLOT, W + 1, 3 * W]
     def waiting(line):
         st = split_line(line)[1]
@@ -75,7 +79,10 @@ def gen_case(rng, enabled=True):
         while waiting(line) and guard < 1000:
             # the sender waits for a flow control: the receiver answers at once (no deadline is ever missed by the peer)
             guard += 1
-            pr.op(0, 'rx', rid, int(ext), hx(pfx + bytes([0x30, bs, 3 if (trickle and not pr.done[0]) else 0])))
+            if aborts and rng.random() < 0.35:
+                pr.op(0, 'rx', rid, int(ext), hx(pfx + bytes([0x32, 0, 0])))
+            else:
+                pr.op(0, 'rx', rid, int(ext), hx(pfx + bytes([0x30, bs, 3 if (trickle and not pr.done[0]) else 0])))
             line = pr.proc(0)
         if not pr.impl[0].layer.transmitting():
             break
@@ -85,7 +92,7 @@ def gen_case(rng, enabled=True):
             pr.tick_all(rng.choice(steps) if enabled else rng.choice([0, 1, 1000]))
     pr.close()
     case = pr.case
-    case.update({'trickle': trickle, 'nops': len(case['ops']), 'payloads': payloads, 'W': W, 'B': bitrate * window, 'tx_dl': tx_dl, 'enabled': enabled,
+    case.update({'trickle': trickle, 'aborts': aborts, 'nops': len(case['ops']), 'payloads': payloads, 'W': W, 'B': bitrate * window, 'tx_dl': tx_dl, 'enabled': enabled,
                  'impl_lines': pr.lines})
     return case
 
@@ -112,7 +119,7 @@ def oracle(case, lines, insts):
             if e == 'crash':
                 fails.append(('C15:exception-escaped', op[1]))
     refs = case.get('refs')
-    if refs is not None:
+    if refs is not None and not case.get('aborts'):
         want = [f for pay in case['payloads'] for f in refs[pay]]
         if frames != want:
             k = next((i for i in range(min(len(frames), len(want))) if frames[i] != want[i]), min(len(frames), len(want)))
